@@ -315,14 +315,75 @@ def node_results_condensed(prog: Program, rep, RID: str):
 
 
 # ------------------------------------------------------------------------------------ arity
-PER_PATH_KEYS = {"paths", "walks", "weights", "slacks", "scaled_slacks"}
+PER_PATH_KEYS = {"paths", "walks", "weights", "slacks", "scaled_slacks", "_paths_internal", "_walks_internal"}
 
 
-def arity_rule(prog: Program, rep, RID: str):
+def _len_tested_names(test: ast.AST) -> Set[str]:
+    out: Set[str] = set()
+    for n in ast.walk(test):
+        if isinstance(n, ast.Call) and dotted(n.func) == "len" and len(n.args) == 1 and isinstance(n.args[0], ast.Name):
+            out.add(n.args[0].id)
+    return out
+
+
+def emptiness_on_internal_route(cls: ClassInfo, f: FuncInfo, per_path: Set[str], rep, RID: str) -> int:
+    """In node-weighted mode the published routes are condensed: a route through one node has a single element
+    but carries flow.  When the class publishes `_paths_internal` / `_walks_internal`, the length test of the
+    remove-empty filter has to be made on the internal route (falling back to the published one in edge mode)."""
+    internal = sorted(k for k in per_path if k.startswith("_") and k.endswith("_internal"))
+    if not internal:
+        return 0
+    ikey = internal[0]
+    pkey = ikey[1:-len("_internal")]
+    defs = local_single_defs(f.node)
+    key = f"{cls.name}.{f.name}:emptiness"
+    sites = 0
+    for loop in [n for n in ast.walk(f.node) if isinstance(n, ast.For)]:
+        tests = [st for st in ast.walk(loop) if isinstance(st, ast.If) and _len_tested_names(st.test)]
+        if not tests:
+            continue
+        it = loop.iter
+        if not (isinstance(it, ast.Call) and dotted(it.func) == "zip" and isinstance(loop.target, ast.Tuple)
+                and len(loop.target.elts) == len(it.args) and all(isinstance(e, ast.Name) for e in loop.target.elts)):
+            raise AnalysisError(f"{cls.name}.{f.name}: the filter loop is not a zip over the per-route lists: {norm(it)}")
+        source = {t.id: a for t, a in zip(loop.target.elts, it.args)}
+        for st in tests:
+            for name in sorted(_len_tested_names(st.test)):
+                if name not in source:
+                    raise AnalysisError(f"{cls.name}.{f.name}: length test on `{name}`, which is not an element of the zipped lists")
+                src = source[name]
+                if isinstance(src, ast.Name) and src.id in defs:
+                    src = defs[src.id]
+                text = norm(src)
+                sites += 1
+                prefers_internal = (
+                    isinstance(src, ast.Call) and isinstance(src.func, ast.Attribute) and src.func.attr == "get" and len(src.args) == 2
+                    and isinstance(src.args[0], ast.Constant) and src.args[0].value == ikey
+                    and isinstance(src.args[1], ast.Subscript) and isinstance(src.args[1].slice, ast.Constant) and src.args[1].slice.value == pkey
+                ) or (
+                    isinstance(src, ast.IfExp) and ikey in norm(src.test) and isinstance(src.body, ast.Subscript)
+                    and isinstance(src.body.slice, ast.Constant) and src.body.slice.value == ikey
+                    and isinstance(src.orelse, ast.Subscript) and isinstance(src.orelse.slice, ast.Constant) and src.orelse.slice.value == pkey
+                )
+                on_published = isinstance(src, ast.Subscript) and isinstance(src.slice, ast.Constant) and src.slice.value == pkey
+                if prefers_internal:
+                    rep.ok(RID, key, f"emptiness is decided on the internal route when there is one: `{text}`", f.loc(st))
+                elif on_published:
+                    rep.violation(RID, key, f"{f.name} decides emptiness on the published `{pkey}` (`{norm(st.test)}`) although the class publishes "
+                                  f"`{ikey}`: in node-weighted mode a route through a single node condenses to one element and is dropped "
+                                  f"with its weight", f.loc(st))
+                else:
+                    raise AnalysisError(f"{cls.name}.{f.name}: cannot tell which list the length test `{norm(st.test)}` reads: `{text}`")
+    if sites == 0:
+        raise AnalysisError(f"{cls.name}.{f.name}: no length test found in the remove-empty filter")
+    return sites
+
+
+def arity_rule(prog: Program, rep, RID: str, only=None):
     n = 0
     for cls in prog.all_classes():
         rm = [m for m in cls.methods if m.startswith("_remove_empty")]
-        if not rm:
+        if not rm or (only is not None and cls.name not in only):
             continue
         published: Set[str] = set()
         for f in cls.methods.values():
@@ -344,6 +405,9 @@ def arity_rule(prog: Program, rep, RID: str):
                             handled.add(t.slice.value)
                 if isinstance(st, ast.Return) and isinstance(st.value, ast.Dict):
                     handled |= {k.value for k in st.value.keys if isinstance(k, ast.Constant)}
+                if isinstance(st, ast.Assign) and isinstance(st.value, ast.Dict) and all(isinstance(t, ast.Name) for t in st.targets):
+                    # a dict built under a local name (and returned or completed by subscript stores)
+                    handled |= {k.value for k in st.value.keys if isinstance(k, ast.Constant)}
             n += 1
             key = f"{cls.name}.{m}"
             missing = per_path - handled
@@ -353,11 +417,11 @@ def arity_rule(prog: Program, rep, RID: str):
             else:
                 rep.ok(RID, key, f"filters every per-path key it publishes: {sorted(per_path)}", f.loc(),
                        sample={"class": cls.name, "published": sorted(per_path), "filtered": sorted(handled)})
-            # zip discipline: the filter loop iterates the per-path lists in lock-step
+            n += emptiness_on_internal_route(cls, f, per_path, rep, RID)
     # per-path lists are built over range(self.k)
     for cls in prog.all_classes():
         gs = cls.methods.get("get_solution")
-        if gs is None:
+        if gs is None or (only is not None and cls.name not in only):
             continue
         for st in walk_no_nested(gs.node):
             if isinstance(st, ast.Assign) and len(st.targets) == 1 and (dotted(st.targets[0]) or "").startswith("self.path_") and \
